@@ -43,9 +43,6 @@ theorem startStep_ok (ws : List RB) (line : Nat) (c : RB) : StepOk 0 line (start
   unfold startStep
   simp only []
   split
-  · exact ⟨by simp, fun _ => ⟨[], _, rfl, by simp [Tok.terminal, tEOF], by simp, by simp⟩,
-      by simp⟩
-  split
   · exact ⟨by simp, by simp, by intro st' l' h; simp at h; simp [← h.1, ← h.2, pending]⟩
   split
   · exact ⟨by simp, by simp,
@@ -105,10 +102,6 @@ theorem step_ok (st : LState) (line : Nat) (c : RB) : StepOk (pending st) line (
     simp only [step]
     split
     · exact ⟨by simp, by simp, by intro st' l' h; simp at h; simp [← h.1, ← h.2, pending]⟩
-    split
-    · exact ⟨by simp, by simp,
-        by intro st' l' h; simp at h
-           simp [← h.1, ← h.2, pending, Tok.terminal, tIdentifier, tEOF, tError]⟩
     · exact emit_then_start _ (by simp [Tok.terminal, tIdentifier, tEOF, tError]) line rfl _
         (startStep_ok [] line c)
   | int acc =>
